@@ -401,6 +401,22 @@ def _wiring(run):
         esc = flow.find_path(gcfg, t_succ, [w.id for w in writers] + [gcfg.exit], edge_filter=flow.no_exc)
         run.check(esc is None and bool(t_succ), 'a second CORSMiddleware under cors_enable is rejected (the test\'s true branch only raises)', g, tn.ast,
                   witness=flow.describe_path(gcfg, esc) if esc else None)
+    # the counted population is the already-registered components AND the
+    # incoming ones: the instance made by cors_enable sits in the registered
+    # list, so counting the new batch alone accepts a second instance that
+    # arrives in a later add_middleware() call
+    mw_param = g.params()[1] if len(g.params()) > 1 else None
+    for tn in tests:
+        names = {x.id for x in ast.walk(tn.ast) if isinstance(x, ast.Name)}
+        sees_registered = any(is_self_attr(x, '_unprepared_middleware') for x in ast.walk(tn.ast))
+        sees_new = mw_param in names
+        if not sees_new:
+            # a local derived from the parameter (middleware = list(middleware))
+            sees_new = any(isinstance(a, ast.Assign) and any(isinstance(t, ast.Name) and t.id in names for t in a.targets)
+                           and any(isinstance(x, ast.Name) and x.id == mw_param for x in ast.walk(a.value)) for a in ast.walk(g.node))
+        run.check(sees_registered and sees_new,
+                  'the duplicate-CORS test counts the registered components together with the incoming ones', g, tn.ast,
+                  runtime_witness='App(cors_enable=True); app.add_middleware(CORSMiddleware(allow_credentials="*")) is accepted: two policies stacked')
     for w in writers:
         ok = any(w.id not in flow.reachable(gcfg, [gcfg.entry], avoid_edges=[(tn.id, y, l) for (y, l) in gcfg.succ[tn.id] if l == 'F']) for tn in tests)
         run.check(ok, 'the registered-middleware list is extended only after the duplicate-CORS test passed', g, w.ast)
